@@ -373,23 +373,28 @@ class PrefetchedCourierServer(CourierServer):
         and self.prefetch_size == other.prefetch_size
     )
 
+  def _stop_prefetch_locked(self, fatal: bool = False):
+    """Stops the prefetch if not exhausted, the generator lock has to be held."""
+    if self._generator is not None and not self._generator.exhausted:
+      logging.warning(
+          'chainable: %s',
+          'A generator is reset while the previous is unexhausted.',
+      )
+      if fatal:
+        e = RuntimeError('A generator was stopped before exhausted.')
+      else:
+        e = TimeoutError('A generator was stopped before exhausted.')
+      self._generator.maybe_stop(e)
+      if self._enqueue_thread:
+        self._enqueue_thread.join()
+      logging.info('chainable: %s', 'Prefetching stopped.')
+
   def _stop_prefetch(self, fatal: bool = False):
     """Stop the prefetch if the generator is not exhausted."""
-    if self._generator is not None:
-      with self._generator_lock:
-        if not self._generator.exhausted:
-          logging.warning(
-              'chainable: %s',
-              'A generator is reset while the previous is unexhausted.',
-          )
-          if fatal:
-            e = RuntimeError('A generator was stopped before exhausted.')
-          else:
-            e = TimeoutError('A generator was stopped before exhausted.')
-          self._generator.maybe_stop(e)
-          if self._enqueue_thread:
-            self._enqueue_thread.join()
-          logging.info('chainable: %s', 'Prefetching stopped.')
+    # The lock is taken before looking at the generator: a generator that is
+    # being initialized concurrently is then stopped as well.
+    with self._generator_lock:
+      self._stop_prefetch_locked(fatal)
 
   def _init_iterator(self, maybe_lazy):
     """Initialize the iterator."""
@@ -400,8 +405,12 @@ class PrefetchedCourierServer(CourierServer):
     start_time = time.time()
     maybe_lazy = lazy_fns.maybe_unpickle(maybe_lazy)
     logging.info('chainable: %s', f'Initializing a generator: {maybe_lazy}')
-    self._stop_prefetch()
+    # Stopping the previous generator and installing the new one is a single
+    # critical section: with concurrent calls each one stops its predecessor.
     with self._generator_lock:
+      if self._shutdown_requested:
+        return TimeoutError('Shutdown requested, cannot take new generator.')
+      self._stop_prefetch_locked()
       logging.debug('chainable: %s', f'Constructing generator: {maybe_lazy}')
       result = lazy_fns.maybe_make(maybe_lazy)
       if not isinstance(result, Iterable):
